@@ -24,6 +24,9 @@ var c08Ops = func() []sop {
 	o = append(o, sop{Kind: "reopen"})
 	// marking a message seen changes no size and no count - and must not change what the limits do
 	// with the message later
+	// deliveries that carry the same received date: which message is the oldest is a matter of
+	// arrival, not of the date
+	o = append(o, sop{Kind: "add", MB: 0, Size: 300, Same: true}, sop{Kind: "add", MB: 1, Size: 600, Same: true})
 	o = append(o, sop{Kind: "seen", MB: 0, Ref: "oldest"}, sop{Kind: "seen", MB: 0, Ref: "newest"}, sop{Kind: "seen", MB: 1, Ref: "newest"})
 	return o
 }()
